@@ -103,6 +103,24 @@ def rule_TR1(rep, prog, ex, q, ts):
                     "%s: the give-up taken when DIRTY is observed does not clear DIRTY with an acquire RMW before the "
                     "drainer looks at the queue again" % t.site.origin,
                     sample={"site": t.site.origin, "giveup": "DIRTY seen -> %s" % (found.d["rmw"] + " " + found.d["ord"] if found else None)})
+        if found is not None:
+            # ... and looks at the queue again before retrying the unlock: after DIRTY was consumed the same compare-exchange is reached again only through
+            # something that re-examines the object (its wakeup function - which for a source re-reads the pending data and the cancel flags - or a fresh
+            # read of the item list); a bare retry unlocks with the wake-up target computed BEFORE the racing enqueue / merge / cancel and strands it
+            def looks(i):
+                if i.op == "call":
+                    if "icallee" in i.d and "dq_wakeup" in callee_slot(prog, i):
+                        return True
+                    return bool(i.callee) and ("wakeup" in i.callee or "drain" in i.callee or "invoke" in i.callee)
+                return i.op == "load" and bool(prog.fields(i) & frozenset(["dq_items_head", "dq_items_tail", "dwl_heads", "dwl_tails"]))
+            back = [r for r in paths.walk(fn, found, lambda i: i is t.site, avoid=looks) if r[0] in ("hit", "loop") and (r[0] == "hit" or fn.inst_reaches(r[1], t.site))]
+            back = [r for r in back if r[0] == "hit" or not any(looks(i) for b_ in [r[1].block] for i in b_.insts)]
+            hits = [r for r in back if r[0] == "hit"]
+            rep.require(rid, not hits, found.loc, t.site.origin, "dirty-giveup-retries-blind:%s" % t.site.origin,
+                        "%s: after consuming DIRTY the unlock compare-exchange is retried without the object having been looked at again (no wake-up function, no "
+                        "fresh read of the item list on path %s): the state is then unlocked with the wake-up target decided before the racing enqueue / "
+                        "dispatch_source_merge_data / cancel, which is left without anybody scheduled to deliver it" % (t.site.origin, hits[0][3] if hits else None),
+                        sample={"site": t.site.origin})
         if found is not None and t.site.origin == "_dispatch_queue_drain_try_unlock" and fn.name == t.site.origin:
             # the function must return false on this path
             res = paths.walk(fn, found, lambda i: False)
@@ -240,7 +258,19 @@ def rule_MP3_OD5(rep, prog, q):
                         "tail exchange in %s is %s: the item's fields are not published before it becomes reachable" % (i.origin, i.d["ord"]),
                         sample={"site": i.origin, "xchg": i.d["ord"]})
             if i.ops[1][0] in ("c", "n"):
-                continue   # consumer snapshot (tail <- NULL), not a push
+                # consumer snapshot (tail <- NULL), not a push. The head was emptied BEFORE the tail: once the tail reads NULL an enqueuer that finds it
+                # empty writes the head blindly - a NULL store to the head made after the exchange clobbers that item (it is never run and the next drain
+                # waits for a head that never appears)
+                heads = [s_ for s_ in fn.all_insts() if s_.op == "store" and (prog.fields(s_) & frozenset(["dq_items_head", "dwl_heads", "dg_notify_head"]))
+                         and s_.ops[0][0] in ("c", "n") and (s_.ops[0][0] == "n" or s_.ops[0][1] == 0)]
+                late = [s_ for s_ in heads if fn.inst_reaches(i, s_) and not fn.inst_reaches(s_, i)]
+                early = [s_ for s_ in heads if fn.dominates(s_, i)]
+                if heads:
+                    rep.require(r5, not late and bool(early), (late[0] if late else i).loc, i.origin, "snapshot-head-cleared-after-tail:%s" % i.origin,
+                                "%s: the consumer snapshot clears the list head %s the tail exchange: the head must be NULL before the tail is, or a concurrent "
+                                "enqueuer's first item - written into the head because it saw the empty tail - is overwritten by the late NULL store and stranded"
+                                % (i.origin, "after" if late else "without a NULL store dominating"), sample={"site": i.origin, "xchg": i.loc})
+                continue
             nxt = [s for s in fn.all_insts() if s.op == "store" and ("do_next" in prog.fields(s))
                    and s.ops[0][0] in ("c", "n") and (s.ops[0][0] == "n" or s.ops[0][1] == 0) and fn.dominates(s, i)]
             rep.require(r5, bool(nxt), i.loc, i.origin, "next-null-before-xchg:%s" % i.origin,
@@ -624,6 +654,10 @@ def run(rep, tier="quick", srcdir=None, only=None):
         # the last reader's hand-over: DIRTY when drain-locked, otherwise take over / enqueue (shared with C04)
         from . import C04
         C04.rule_MP4(rep, prog, q, ts)
+    if want("C04-SB11"):
+        # a barrier waiter must complete as a barrier: the block-object sync entry hands a DC_FLAG_BARRIER item to the barrier entry only (shared with C04)
+        from . import C04
+        C04.rule_SB11(rep, prog, q)
     if want("C04-TR2"):
         # the barrier's width reservation is made once: a double reservation strands the barrier and everything queued behind it (shared with C04)
         from . import C04
